@@ -108,6 +108,8 @@ def gen_plan(seed, tier):
                               (1, W.OFPP_FLOOD), (1, W.OFPP_CONTROLLER),
                               (1, W.OFPP_ALL), (1, W.OFPP_IN_PORT),
                               (1, nports + 1)])
+        if Rng(mix(seed, "sout0", len(steps))).chance(0.08):
+          st["sout"] = 0      # (port 0: a filter, not "no filter")
       if Rng(mix(seed, "sflags", len(steps))).chance(0.2):
         st["sflags"] = r.pick([1, 1, 2, 0xffff])
     elif k == "queue_config":
